@@ -14,7 +14,7 @@ func init() {
 	register(&PropertyDef{
 		ID:          "C01",
 		Title:       "Sealed group messages open to the original payload or are rejected",
-		Explanation: "Decides, for all inputs at once, structural necessary conditions of authenticated opening in pkg/secretstore: (D1) every secretbox.Open behind the three open entry points (headers, payload, push envelope) has its ok result tested, the failing side reaches only error returns and no success return bypasses the accepting side; (D2) verify-before-deliver: in the function that opens the payload box, every success return is dominated either by the accepting side of Verify(plaintext, headers.Sig) on the key decoded from headers.DevicePk, or by the 'already decrypted' side of the flag; that flag is only ever stored as constant true at construction and as constant false on the hit side of the by-CID lookup; (D3) sealer/opener binding: nonce and header counter are stored counter+1, the DevicePk header is the public half of the key that signs, the signature is over the clear payload given to secretbox.Seal, and the opener's nonce comes from the opened headers' counter; (D4) group separation: every call of the chain KDF passes info derived from the group public key (never nil/constant); (D5) the message key is stored under the message CID (which switches the signature check off for later opens) only after a call that opened and verified the payload has succeeded, on every call path. Not decided: that NaCl/Ed25519 reject every altered bit, payload equality for all sizes, emission by the message store.",
+		Explanation: "Decides, for all inputs at once, structural necessary conditions of authenticated opening in pkg/secretstore: (D1) every secretbox.Open behind the three open entry points (headers, payload, push envelope) has its ok result tested, the failing side reaches only error returns and no success return bypasses the accepting side; (D2) verify-before-deliver: in the function that opens the payload box, every success return is dominated either by the accepting side of Verify(plaintext, headers.Sig) on the key decoded from headers.DevicePk, or by the 'already decrypted' side of the flag; that flag is only ever stored as constant true at construction and as constant false on the hit side of the by-CID lookup; (D3) sealer/opener binding: nonce and header counter are stored counter+1, the DevicePk header is the public half of the key that signs, the signature is over the clear payload given to secretbox.Seal, and the opener's nonce comes from the opened headers' counter; (D4) group separation: every call of the chain KDF passes info derived from the group public key (never nil/constant); (D5) the message key is stored under the message CID (which switches the signature check off for later opens) only after a call that opened and verified the payload has succeeded, on every call path (call sites include the loops that run a local table of closures in order). Where the function that opens the payload box takes the signature, the counter or the 'newly decrypted' flag as a bare parameter (unexported function, all callers visible), the parameter stands for what every call site passes and the tests of D2/D3 are applied to those arguments. Not decided: that NaCl/Ed25519 reject every altered bit, payload equality for all sizes, emission by the message store.",
 		Trusted:     []string{"nacl/secretbox, Ed25519 (libp2p crypto), HKDF", "go/ssa (x/tools v0.29.0)"},
 		Assumptions: []string{"headers passed to OpenEnvelopePayload are the ones returned by OpenEnvelopeHeaders (checked at the message-store call site in C08/C14 scope)"},
 		Floors:      map[string]int{"D1": 3, "D2": 5, "D3": 5, "D4": 3, "D5": 1},
@@ -22,7 +22,7 @@ func init() {
 			{From: "C14", Rules: []string{"D1", "D2"}, Why: "the push route is a second way to open an envelope: it must verify the device signature on every success return (a forged push is otherwise delivered as the sender's) and must not record a message key under the CID named by the unauthenticated push message (the log route skips the signature for a CID that has a key)"},
 			{From: "C09", Rules: []string{"D1"}, Why: "two payloads sealed under one counter share key and nonce; a member opens one and rejects the other genuine one"},
 		},
-		Run:         runC01,
+		Run: runC01,
 	})
 }
 
@@ -73,9 +73,119 @@ func flagLoad(v ssa.Value) (flagField, bool) {
 	return flagField{n, fa.Field}, true
 }
 
-// flagEdges: for If instructions of fn testing a load of a bool struct field, the edges
-// taken when the flag is false.
-func flagFalseEdges(fn *ssa.Function) (map[flagField][]edge, []flagField) {
+// c01ValueFunc: the function a value belongs to.
+func c01ValueFunc(v ssa.Value) *ssa.Function {
+	switch x := v.(type) {
+	case *ssa.Parameter:
+		return x.Parent()
+	case *ssa.FreeVar:
+		return x.Parent()
+	case ssa.Instruction:
+		return x.Parent()
+	}
+	return nil
+}
+
+// c01UsedAsValue: the named functions of the secret store package that are used as function
+// values somewhere (not only called): their callers are not all visible as call sites.
+func c01UsedAsValue(w *World) map[*ssa.Function]bool {
+	if m, ok := w.memo["c01usedasvalue"].(map[*ssa.Function]bool); ok {
+		return m
+	}
+	m := map[*ssa.Function]bool{}
+	for _, fn := range w.ModFuncs {
+		if p := fnPkg(fn); p == nil || p.Path() != pkgSecret {
+			continue
+		}
+		for _, b := range fn.Blocks {
+			for _, in := range b.Instrs {
+				var ops [12]*ssa.Value
+				for _, op := range in.Operands(ops[:0]) {
+					f, isF := (*op).(*ssa.Function)
+					if !isF {
+						continue
+					}
+					if ci, isCall := in.(ssa.CallInstruction); isCall && !ci.Common().IsInvoke() && ci.Common().Value == ssa.Value(f) {
+						isArg := false
+						for _, a := range ci.Common().Args {
+							if a == ssa.Value(f) {
+								isArg = true
+							}
+						}
+						if !isArg {
+							continue
+						}
+					}
+					m[f] = true
+				}
+			}
+		}
+	}
+	w.memo["c01usedasvalue"] = m
+	return m
+}
+
+// c01CallSiteValues: a value that is a bare parameter of an unexported function of the secret
+// store package stands for whatever its callers pass: it is resolved to the arguments at all
+// module call sites of the function (and on through their bare parameters, at most three
+// levels up). Any other value - and a parameter whose callers are not all visible (exported or
+// interface method, no call site, function used as a value) - is returned as it is.
+func c01CallSiteValues(w *World, v ssa.Value, depth int) []ssa.Value {
+	par, ok := stripConv(v).(*ssa.Parameter)
+	if !ok || depth > 3 {
+		return []ssa.Value{v}
+	}
+	fn := par.Parent()
+	if p := fnPkg(fn); p == nil || p.Path() != pkgSecret || fn.Parent() != nil {
+		return []ssa.Value{v}
+	}
+	if o := fn.Object(); o == nil || o.Exported() || c01UsedAsValue(w)[fn] {
+		return []ssa.Value{v}
+	}
+	idx := -1
+	for i, p := range fn.Params {
+		if p == par {
+			idx = i
+		}
+	}
+	callers := w.callGraph().callers[fn]
+	if idx < 0 || len(callers) == 0 {
+		return []ssa.Value{v}
+	}
+	var out []ssa.Value
+	for _, cs := range callers {
+		cc := cs.Instr.Common()
+		if _, isCall := cs.Instr.(*ssa.Call); !isCall || cc.IsInvoke() || idx >= len(cc.Args) {
+			return []ssa.Value{v} // go/defer/interface dispatch: not a plain call of this function
+		}
+		out = append(out, c01CallSiteValues(w, cc.Args[idx], depth+1)...)
+	}
+	return out
+}
+
+// c01FlagOf: cond (the operand of a branch) is a load of a bool field of a module struct, or a
+// bare bool parameter for which every call site passes a load of one and the same such field.
+func c01FlagOf(w *World, cond ssa.Value) (flagField, bool) {
+	if ff, ok := flagLoad(cond); ok {
+		return ff, true
+	}
+	if _, isPar := cond.(*ssa.Parameter); !isPar || !isBoolType(cond.Type()) {
+		return flagField{}, false
+	}
+	var ff flagField
+	for i, v := range c01CallSiteValues(w, cond, 0) {
+		f, ok := flagLoad(v)
+		if !ok || (i > 0 && f != ff) {
+			return flagField{}, false
+		}
+		ff = f
+	}
+	return ff, ff.Struct != nil
+}
+
+// flagEdges: for If instructions of fn testing a load of a bool struct field (or a parameter
+// that carries one, see c01FlagOf), the edges taken when the flag is false.
+func flagFalseEdges(w *World, fn *ssa.Function) (map[flagField][]edge, []flagField) {
 	out := map[flagField][]edge{}
 	var order []flagField
 	for _, b := range fn.Blocks {
@@ -91,7 +201,7 @@ func flagFalseEdges(fn *ssa.Function) (map[flagField][]edge, []flagField) {
 		if u, ok := cond.(*ssa.UnOp); ok && u.Op == token.NOT {
 			cond, neg = u.X, true
 		}
-		ff, ok := flagLoad(cond)
+		ff, ok := c01FlagOf(w, cond)
 		if !ok {
 			continue
 		}
@@ -178,9 +288,12 @@ func runC01(c *Ctx) {
 				continue
 			}
 			// signature from the headers
-			sigOK := false
-			if ap, ok := accessPath(site.Sig); ok && strings.HasSuffix(ap, ".Sig") {
-				sigOK = true
+			// (a bare parameter stands for what every caller passes for it)
+			sigOK := true
+			for _, sv := range c01CallSiteValues(w, site.Sig, 0) {
+				if ap, ok := accessPath(sv); !ok || !strings.HasSuffix(ap, ".Sig") {
+					sigOK = false
+				}
 			}
 			c.check(sigOK, "D2", fnName(fn)+"+Verify.sig", posOf(v), "signature taken from the opened headers", "the signature verified is not the headers' Sig field")
 			// key decoded from headers.DevicePk (through callers)
@@ -216,7 +329,7 @@ func runC01(c *Ctx) {
 			nVerify++
 			accept = append(accept, edgesOfVerdict(site.Verdicts[0]).Accept...)
 		}
-		fe, order := flagFalseEdges(fn)
+		fe, order := flagFalseEdges(w, fn)
 		for _, ff := range order {
 			accept = append(accept, fe[ff]...)
 			flags = append(flags, ff)
@@ -365,15 +478,22 @@ func runC01(c *Ctx) {
 	// (d) opener nonce from the opened headers' counter
 	for _, fn := range payloadFns {
 		arg, _ := nonceFromCounter(payloadOpen[fn].Common().Args[2])
-		ap, ok := accessPath(arg)
-		okN := ok && strings.HasSuffix(ap, ".Counter")
-		if okN {
-			base := ap[:strings.Index(ap, ".")]
-			okN = false
-			for _, p := range fn.Params {
-				if p.Name() == base && isNamed(p.Type(), pkgTypes, "MessageHeaders") {
-					okN = true
+		// the Counter field of a headers parameter (of the push envelope, which carries the
+		// headers in clear), in this function or - for a bare counter parameter - at every caller
+		okN := true
+		for _, cv := range c01CallSiteValues(w, arg, 0) {
+			ap, ok := accessPath(cv)
+			okC := false
+			if f := c01ValueFunc(cv); ok && f != nil && strings.HasSuffix(ap, ".Counter") {
+				base := ap[:strings.Index(ap, ".")]
+				for _, p := range f.Params {
+					if p.Name() == base && (isNamed(p.Type(), pkgTypes, "MessageHeaders") || isNamed(p.Type(), pkgTypes, "OutOfStoreMessage")) {
+						okC = true
+					}
 				}
+			}
+			if !okC {
+				okN = false
 			}
 		}
 		c.check(okN, "D3", fnName(fn)+"+open-nonce", posOf(payloadOpen[fn]), "payload nonce is the opened headers' counter", "the payload box is opened with a nonce that is not the opened headers' counter")
@@ -473,6 +593,9 @@ func checkKeyByCIDOnlyAfterVerify(c *Ctx, rule string, payloadFns []*ssa.Functio
 		if seen[fn] {
 			return nil
 		}
+		// call sites: static ones and (added to the call graph by c09Tables before every run) the
+		// loops that run fn as an element of a local table of functions
+		// (`for _, step := range []func() error{...} { step() }`)
 		callers := cg.callers[fn]
 		if len(callers) == 0 || (fn.Object() != nil && fn.Object().Exported()) {
 			return here
